@@ -1,4 +1,5 @@
 import Driver.Util
+import Driver.Repo
 import ReplicatModel.Access
 open Lean Replicat Replicat.Access
 namespace Driver
@@ -18,12 +19,48 @@ def userJson (u : Option Repo.User) : Json :=
   | some u => Json.arr #[jnat u.key, jnat u.fam]
   | none => Json.null
 
+def optNat (o : Option Nat) : Json := match o with | some t => jnat t | none => Json.null
+
+/-- one query of `access.observe` against a fixed store: what a user's listing / restore / delete decision returns -/
+def observeOne (enc : Bool) (s : Repo.Store) (q : Json) : Except String Json := do
+  let kind ← getStr q "kind"
+  let u ← parseUser (← q.getObjVal? "user")
+  let sre ← parsePred q "sre"
+  let fre ← parsePred q "fre"
+  match kind with
+  | "list" =>
+    match Repo.listSnapshots enc u sre s with
+    | .ok rows => pure (Json.mkObj [("rows", Json.arr (rows.map fun r => Json.arr #[jnat r.sid, optNat r.ts, optNat r.files]).toArray), ("error", Json.null)])
+    | .error e => pure (Json.mkObj [("error", errJson e)])
+  | "listfiles" =>
+    match Repo.listFiles enc u sre fre s with
+    | .ok rows => pure (Json.mkObj [("rows", Json.arr (rows.map fun r => natArr [r.1, r.2.1, r.2.2]).toArray), ("error", Json.null)])
+    | .error e => pure (Json.mkObj [("error", errJson e)])
+  | "restore" =>
+    match Repo.restore enc u sre fre s with
+    | .ok fs => pure (Json.mkObj [("files", Json.arr (fs.map fileJson).toArray), ("error", Json.null)])
+    | .error e => pure (Json.mkObj [("error", errJson e)])
+  | "deleteplan" =>
+    let sids ← getNatList q "sids"
+    match Repo.deletePlan enc u sids s with
+    | .ok p => pure (Json.mkObj [("snaps", Json.arr (p.snaps.map nameJson).toArray), ("chunks", Json.arr (p.chunks.map nameJson).toArray), ("error", Json.null)])
+    | .error e => pure (Json.mkObj [("error", errJson e)])
+  | _ => throw s!"bad query kind {kind}"
+
 /-- requests `access.*`:
+`access.observe` — `{enc, store, queries: [{kind: list|listfiles|restore|deleteplan, user, sre?, fre?, sids?}]}`: the model's
+`listSnapshots` / `listFiles` / `restore` / `deletePlan` for several users and filters on ONE store (parsed once).
 `access.graph` — build the key graph of `init(password, cfg)` followed by `steps` (add-key independent / shared / clone issued
 by the holder of entry `base`); reply: per entry `[keyId, fam]` as unlocked with its own password, whether the private section
 is sealed, and for every `attempts` pair `[entry index, password]` the user the unlock yields or null (DecryptionError). -/
 def handleAccess (op : String) (j : Json) : Except String Json := do
   match op with
+  | "access.observe" =>
+    let enc ← (getBool j "enc" <|> pure true)
+    let s ← parseStore (← j.getObjVal? "store")
+    let qs ← getArr j "queries"
+    let res ← qs.toList.mapM (observeOne enc s)
+    pure (Json.mkObj [("results", Json.arr res.toArray)])
   | "access.graph" =>
     let pw ← getNat j "password"
     let cfg ← getNat j "cfg"
